@@ -92,6 +92,12 @@ static const Scenario kScenarios[] = {
             "a d", "all b", { { "b", "d@0", 0, NULL }, { "b2", "d@0", 0, NULL }, { NULL } } },
   /* 40 */ { "phony_in_console_pool", { RULES "build p0: cc s1\nbuild ph: phony p0\n  pool = console\nbuild c1: cc s2 | ph\n  pool = console\nbuild c2: cc s3 | ph\n  pool = console\nbuild w: cc s4\nbuild top: cc c1 c2 w\n", NULL, NULL },
             "s1 s2 s3 s4", "top", { { NULL } } },
+  /* 41 */ { "dyndep_input_in_pool", { RULES "pool p\n  depth = 2\nrule mkdd\n  command = scan $in > $out\nbuild dd: mkdd ddsrc\nbuild pp: cc s1\n  pool = p\nbuild out: cc in || dd\n  dyndep = dd\nbuild top: cc out pp\n", NULL, NULL },
+            "ddsrc s1 in", "top out", { { "dd", "", 0, "ninja_dyndep_version = 1\nbuild out: dyndep | pp\n" }, { "out", "pp", 0, NULL }, { NULL } } },
+  /* 42 */ { "phony_mixed_restat", { RULES "build cfg.h: gen cfg.in\nbuild headers: phony cfg.h extra.h\nbuild out: cc src | headers\nbuild out2: cc src2 || headers\n", NULL, NULL },
+            "cfg.in extra.h src src2", "out out2", { { "cfg.h", "", KEEP_IF_SAME | HALVE, NULL }, { NULL } } },
+  /* 43 */ { "pruned_depfile_dir", { RULES "rule ccdd\n  command = cc -MD $in -o $out\n  depfile = deps/$out.d\n  deps = gcc\nbuild a.o: ccdd a.c\nbuild pruned: cc a.o\nbuild b.o: ccdd b.c || pruned\nbuild obj/c.o: ccdd c.c || pruned\n", NULL, NULL },
+            "a.c b.c c.c hdr", "b.o obj/c.o", { { "a.o", "hdr", 0, NULL }, { "b.o", "hdr", 0, NULL }, { "obj/c.o", "hdr", 0, NULL }, { "pruned", "", REMOVES_EMPTY_DIRS, NULL }, { NULL } } },
 };
 #ifndef SCENARIO
 #define SCENARIO 0
